@@ -1211,6 +1211,16 @@ fn copy_prop_reverse(
     let mut to_delete: FxHashSet<Value> = FxHashSet::default();
     let mut src_to_dst: FxHashMap<Symbol, Symbol> = FxHashMap::default();
 
+    // Two different sources copied to the same destination (e.g., in the two arms of
+    // an `if`) would both be replaced by that destination. The candidates were analyzed
+    // one by one, so nothing guarantees that the accesses to one source do not clobber
+    // the other source once they share the memory. We do not optimize such destinations.
+    let mut dst_to_srcs: FxHashMap<Symbol, FxHashSet<Symbol>> = FxHashMap::default();
+    for (_inst, dst_sym, src_sym) in &candidates {
+        dst_to_srcs.entry(*dst_sym).or_default().insert(*src_sym);
+    }
+    candidates.retain(|(_inst, dst_sym, _src_sym)| dst_to_srcs[dst_sym].len() == 1);
+
     for (inst, dst_sym, src_sym) in candidates {
         match src_sym {
             Symbol::Arg(_) => {
